@@ -173,8 +173,33 @@ func RuleDReject(c *core.Ctx) {
 				}
 				if desc, ok := reviewed(iff.Cond); ok {
 					good = append(good, desc)
+					continue
+				}
+				// not one of the plain forms: decide on the atoms (sign tests written with
+				// Sign()/Cmp(), helpers such as isOpen(x), conditions of a tagless switch)
+				ci := newCondInterp(p)
+				ci.extra = func(v ssa.Value) (string, string, bool) {
+					if bo, ok := v.(*ssa.BinOp); ok && (bo.Op == token.EQL || bo.Op == token.NEQ) {
+						if isPtrToNamed(bo.X.Type(), "Account") && isPtrToNamed(bo.Y.Type(), "Account") {
+							return "acct:" + valueID(bo.X) + "=" + valueID(bo.Y), "same account?", true
+						}
+						return "", "", false
+					}
+					if desc, ok := reviewed(v); ok {
+						return "atom:" + valueID(v), desc, true
+					}
+					return "", "", false
+				}
+				if tbl, ok := ci.table(iff.Cond, b); ok {
+					if why := ci.signSymmetric(tbl); why != "" {
+						bad = append(bad, why)
+					} else {
+						for _, a := range ci.order {
+							good = append(good, ci.desc[a])
+						}
+					}
 				} else {
-					bad = append(bad, desc)
+					bad = append(bad, ci.unknown)
 				}
 			}
 			key := fmt.Sprintf("%s:error return %d", core.FuncName(fn), n)
